@@ -37,6 +37,8 @@ type archOpts struct {
 	minZoom   uint8
 	maxZoom   uint8
 	pad       int // bytes of padding between root and metadata (spec allows)
+	padLeaf   int // bytes of padding between metadata and leaf directories (spec allows)
+	padData   int // bytes of padding between leaf directories and tile data (spec allows)
 }
 
 func buildArchive(r *rng, es []Ent, data []byte, o archOpts) *Archive {
@@ -48,9 +50,9 @@ func buildArchive(r *rng, es []Ent, data []byte, o archOpts) *Archive {
 	h := Hdr{Version: 3, RootOff: 127, RootLen: uint64(len(root))}
 	h.MetaOff = h.RootOff + h.RootLen + uint64(o.pad)
 	h.MetaLen = uint64(len(meta))
-	h.LeafOff = h.MetaOff + h.MetaLen
+	h.LeafOff = h.MetaOff + h.MetaLen + uint64(o.padLeaf)
 	h.LeafLen = uint64(len(leaves))
-	h.DataOff = h.LeafOff + h.LeafLen
+	h.DataOff = h.LeafOff + h.LeafLen + uint64(o.padData)
 	h.DataLen = uint64(len(data))
 	h.IntComp = 1
 	if o.tree.gzip {
@@ -73,7 +75,9 @@ func buildArchive(r *rng, es []Ent, data []byte, o archOpts) *Archive {
 	b.Write(root)
 	b.Write(make([]byte, o.pad))
 	b.Write(meta)
+	b.Write(bytes.Repeat([]byte{0xEE}, o.padLeaf))
 	b.Write(leaves)
+	b.Write(bytes.Repeat([]byte{0xDD}, o.padData))
 	b.Write(data)
 	for i := range dirs {
 		if dirs[i].Depth == 0 {
